@@ -14,6 +14,10 @@ def main():
     chk.assume('real arithmetic on values (rounding outside the claim)', 'x does not alias r (documented precondition)', 'divisors non-zero where the code divides',
                'path conditions recorded by concolic execution (e.g. |alpha| >= eps for the symbolic alpha)')
     e2prop.run_e2(chk, os.path.join(C.VERIF, 'harness', 'c01_e2.cpp'), 'c01_e2', timeout=60, harness_args=['--bounds'] + bounds)
+    # result-independence slice: operations that overwrite their result must not read its previous (uninitialised) content
+    chk.bounds.append('E2 result-independence slice: apply / apply_transposed of CSR, CSCR, Banded, Dense, BCSR<2,3> (2- and 4-argument) into freshly constructed vectors; extract_diag / lump_rows / row norms, scale / scale_rows / scale_cols / transpose, vector copy / scale / component_product / component_invert into fresh objects')
+    chk.assume('reads of uninitialised memory are detected through the validity tag of SymReal in a forked child under MALLOC_PERTURB_ (set by ./check) and replayed in double with a malloc that fills blocks with NaN bytes')
+    e2prop.run_e2(chk, e2prop.e2_harness_path('c01u_e2.cpp'), 'c01u_e2', timeout=60, harness_args=['--bounds', '1'], max_group=1)
     return chk.finish(
         explanation='Bounded symbolic check: the real LAFEM matrix classes are instantiated with a symbolic real scalar and executed on every shape/pattern/aliasing configuration inside the bound; for each configuration z3 decides, over ALL real matrix values, vectors and alpha, that the result equals the dense product and operands are unmodified.',
         rule='one obligation = one result component (or operand component) identity of one configuration; non-trivial = lhs and rhs are different DAG terms and z3 returned unsat',
